@@ -61,6 +61,7 @@ let parse_values (s : string) : leafv value list =
     | 'P' when !i + 1 < n && s.[!i + 1] = '(' ->
         incr i; eat '('; let a = value () in eat ','; let b = value () in eat ')'; VPair (a, b)
     | 'U' when !i + 1 < n && s.[!i + 1] = '(' -> incr i; eat '('; let v = value () in eat ')'; VPtr v
+    | 'Z' -> incr i; VValueless
     | 'V' ->
         incr i;
         let j = !i in
@@ -89,9 +90,10 @@ let rec leaves (x : leafv value) : leafv list =
   | VTuple l | VObj l -> List.concat_map leaves l
   | VPair (a, b) -> leaves a @ leaves b
   | VVariant (_, v) | VPtr v -> leaves v
+  | VValueless -> []
 let rec has_ptr (x : leafv value) : bool =
   match x with
-  | VLeaf _ -> false
+  | VLeaf _ | VValueless -> false
   | VTuple l | VObj l -> List.exists has_ptr l
   | VPair (a, b) -> has_ptr a || has_ptr b
   | VVariant (_, v) -> has_ptr v
@@ -133,6 +135,7 @@ let rec leaf_diffs (x : leafv value) (y : leafv value) : int option =   (* None:
   | VPair (a, b), VPair (c, d) -> both [a; b] [c; d]
   | VVariant (k, v), VVariant (j, w) -> if k = j then leaf_diffs v w else None
   | VPtr v, VPtr w -> leaf_diffs v w
+  | VValueless, VValueless -> Some 0
   | _ -> None
 let is_swap (x : leafv value) (y : leafv value) : bool =
   let sw l m =
@@ -367,6 +370,26 @@ let mc_oracle sc kind mode es obs =
     end in
   obs = want
 
+(* ---- owning adaptors relocated: values ---- *)
+let ow_second sc = match sc with "cp" -> `First | "asg" | "ret" | "vec" -> `Second | _ -> `None
+let ow_valid sc kind n =
+  List.mem sc ["cp"; "cpd"; "mv"; "mvd"; "asg"; "masg"; "ret"; "vec"; "opt"] &&
+  (match kind with "vec" | "list" | "fv" -> true | "arr" -> n <= mc_maxn | "il" -> n >= 1 && n <= mc_maxn | _ -> false)
+let ow_model sc en kind e1 e2 =
+  if List.length e1 <> List.length e2 || not (ow_valid sc kind (List.length e1)) then "BADCASE" else
+  let other = match ow_second sc with `First -> Some e1 | `Second -> Some e2 | `None -> None in
+  let src_after = match other with Some l -> l | None -> [] in
+  if en then
+    let (c, s) = iterate_copy_and_source_enumerate e1 src_after in
+    Printf.sprintf "OW %s %s" (inner_str (fun l -> dotted (vis_e_plain l)) c) (if other = None then "-" else inner_str (fun l -> dotted (vis_e_plain l)) s)
+  else
+    let (c, s) = iterate_copy_and_source_reverse e1 src_after in
+    Printf.sprintf "OW %s %s" (inner_str (fun l -> dotted (vis_r_plain l)) c) (if other = None then "-" else inner_str (fun l -> dotted (vis_r_plain l)) s)
+let ow_oracle sc en kind e1 e2 obs =
+  if List.length e1 <> List.length e2 || not (ow_valid sc kind (List.length e1)) then obs = "BADCASE" else
+  let vis l = dotted (if en then vis_e_plain (spec_enumerate l) else vis_r_plain (List.rev l)) in
+  obs = Printf.sprintf "OW %s %s" (vis e1) (match ow_second sc with `First -> vis e1 | `Second -> vis e2 | `None -> "-")
+
 (* ------------------------------------------------------------------ dispatch *)
 let model (w : string list) : string =
   try
@@ -398,6 +421,7 @@ let model (w : string list) : string =
         (match x with VPtr _ -> Printf.sprintf "A 1 %s %s" (hex_of_n (mhash x)) (hex_of_n (mhash x)) | _ -> "BADCASE")
     | [("en" | "rv") as a; kind; mode; elems] -> iter_model (a = "en") kind mode (ints_of_wire elems)
     | ["re"; sc; kind; mode; elems] -> reuse_model sc kind mode (ints_of_wire elems)
+    | ["ow"; sc; ("en" | "rv") as a; kind; e1; e2] -> ow_model sc (a = "en") kind (ints_of_wire e1) (ints_of_wire e2)
     | "mc" :: sc :: kind :: mode :: (([_; _] | [_; _; _]) as es) -> mc_model sc kind mode (List.map ints_of_wire es)
     | _ -> "BADCASE"
   with Bad | Invalid_argument _ | Failure _ | Not_found -> "BADCASE"
@@ -433,6 +457,7 @@ let oracle (w : string list) (obs : string) : bool =
   | ["a"; "SQ"; _], ["A"; e; hx; hy] -> e = "1" && hx = hy
   | [("en" | "rv") as a; kind; mode; elems], _ -> iter_oracle (a = "en") kind mode (ints_of_wire elems) obs
   | ["re"; sc; kind; mode; elems], _ -> reuse_oracle sc kind mode (ints_of_wire elems) obs
+  | ["ow"; sc; ("en" | "rv") as a; kind; e1; e2], _ -> ow_oracle sc (a = "en") kind (ints_of_wire e1) (ints_of_wire e2) obs
   | "mc" :: sc :: kind :: mode :: (([_; _] | [_; _; _]) as es), _ -> mc_oracle sc kind mode (List.map ints_of_wire es) obs
   | _ -> false
 
